@@ -328,9 +328,15 @@ class CoroStart(Awaitable[T_co]):
         value = exc if isinstance(exc, BaseException) else exc()
         for i in range(tries):
             try:
-                self._resume(self.coro.throw, type(value), value)
+                out_value = self._resume(self.coro.throw, type(value), value)
             except StopIteration as err:
                 return cast(T_co, err.value)
+            # The coroutine did not exit, it suspended again, and what it yielded
+            # goes nowhere.  If that is a Future, clear its blocking flag, as
+            # `_start()` does and as the Task receiving it would have done, so
+            # that others can still await it.
+            if getattr(out_value, "_asyncio_future_blocking", None):
+                out_value._asyncio_future_blocking = False
         else:
             raise RuntimeError(f"coroutine ignored {type(value).__name__}")
 
